@@ -36,12 +36,14 @@ def run(ctx):
     E.rule_identity(res, "C09-R3", m)
     E.rule_type_change_rebuilds_template(res, "C09-R4", m)
     E.rule_type_change_opens_frame(res, "C09-R4", m)
-    obs, _ = accessors.analyse(fb, ctx.spec("layout.json"))
+    obs, ast = accessors.analyse(fb, ctx.spec("layout.json"), scope=lambda cls, stem: cls == "ASAM::CMP::CmpHeader")
     for o in obs:
-        if o.cls == "ASAM::CMP::CmpHeader" and o.tag in ("position", "frame", "readback"):
+        # the write side of the frame header (what the encoder puts on the wire); what a decoder reads back through the getters is C04's
+        if o.cls == "ASAM::CMP::CmpHeader" and (o.tag == "frame" or (o.tag == "position" and "::set" in o.key)):
             res.check(o.ok, "C09-R5", o.key, o.loc, o.detail)
+    accessors.require_supported(ast)
     res.floor("C09-R1", 5)
     res.floor("C09-R2", 2)
     res.floor("C09-R3", 6)
-    res.floor("C09-R5", 20)
+    res.floor("C09-R5", 15)
     return res
